@@ -190,3 +190,49 @@ Theorem C06_doc_examples :
   open DocExamples.t7 "host.com"%string qAAAA = DocExamples.answer "" [].
 Proof. exact DocExamples.all. Qed.
 Print Assumptions C06_doc_examples.
+
+(** ** Response side (what the client receives), for any upstream *)
+
+Theorem C06_response_terminates :
+  forall sort, (forall l, Permutation (sort l) l) ->
+  forall upstream enabled tbl qname qt,
+    respond sort upstream enabled tbl qname qt <> None.
+Proof. exact respond_terminates. Qed.
+Print Assumptions C06_response_terminates.
+
+(** A covered name without a value of the requested type gets an empty
+    NOERROR answer and the upstream is not asked. *)
+Theorem C06_matched_without_value_response :
+  forall (sort : list entry -> list entry) upstream tbl qname qt,
+    qname <> [] ->
+    (exists e, In e tbl /\ matches_host e (to_lower qname) = true) ->
+    (forall e, In e tbl -> matches_host e (to_lower qname) = true -> match_qtype e qt = false) ->
+    respond sort upstream true tbl qname qt =
+      Some {| rp_qname := qname; rp_rcode := 0; rp_answer := []; rp_upstream := [] |}.
+Proof. exact respond_matched_without_value. Qed.
+Print Assumptions C06_matched_without_value_response.
+
+(** A CNAME without table addresses is resolved upstream: one question, for
+    the canonical name; the delivered message carries the original question
+    and the CNAME in front of the upstream's records. *)
+Theorem C06_cname_via_upstream :
+  forall (sort : list entry -> list entry) upstream enabled tbl qname qt r,
+    check_host sort enabled tbl qname qt = Some r ->
+    r_reason r = Rewritten -> r_canon r <> [] -> r_ips r = [] ->
+    respond sort upstream enabled tbl qname qt =
+      Some {| rp_qname := qname; rp_rcode := fst (upstream (r_canon r) qt);
+              rp_answer := RR_CNAME qname (r_canon r) :: snd (upstream (r_canon r) qt);
+              rp_upstream := [(r_canon r, qt)] |}.
+Proof. exact respond_cname_via_upstream. Qed.
+Print Assumptions C06_cname_via_upstream.
+
+(** Addresses delivered without asking the upstream are addresses of the
+    filtering result (hence, by C06_addresses_from_table_check_host, of table
+    entries covering the resolved name with the requested family). *)
+Theorem C06_response_local_addresses :
+  forall (sort : list entry -> list entry) upstream enabled tbl qname qt p owner v,
+    respond sort upstream enabled tbl qname qt = Some p -> rp_upstream p = [] ->
+    In (RR_A owner v) (rp_answer p) \/ In (RR_AAAA owner v) (rp_answer p) ->
+    exists i r, check_host sort enabled tbl qname qt = Some r /\ In i (r_ips r) /\ ip_val i = v.
+Proof. exact respond_local_addresses. Qed.
+Print Assumptions C06_response_local_addresses.
